@@ -472,7 +472,7 @@ pub fn format_var(name: &str, value: f64, is_first: bool) -> String {
     let num = if value == 1.0 || value == -1.0 {
         "".to_string()
     } else {
-        value.abs().to_string()
+        crate::utils::number_to_source(value.abs())
     };
     format!("{}{}{}", sign, num, name)
 }
